@@ -4,7 +4,7 @@ import json, os, random, re
 from vf import *
 import server_family as sf
 
-BOUND = [0, 1, 15, 16, 17, 31, 32, 33, 47, 48, 49, 63, 64, 65, 255, 256, 257, 1024]
+BOUND = [0, 1, 15, 16, 17, 31, 32, 33, 47, 48, 49, 63, 64, 65, 95, 96, 107, 108, 128, 200, 255, 256, 257, 1024]
 
 
 def cont_body(rng, total):
